@@ -345,7 +345,10 @@ func (s *Recursive) buildTupleMapperForID(ctx context.Context, req *Request, edg
 	if ctxIter != nil {
 		iter = iterator.Concat(ctxIter, iter)
 	}
-	iterFilters := make([]iterator.FilterFunc[*openfgav1.TupleKey], 0, 2)
+	iterFilters := make([]iterator.FilterFunc[*openfgav1.TupleKey], 0, 3)
+	if recursiveType == RecursiveTypeTTU {
+		iterFilters = append(iterFilters, BuildTuplesetObjectFilter())
+	}
 	iterFilters = append(iterFilters, BuildUniqueTupleKeyFilter(visited, uniqueKeyFunc))
 	conditions := edge.GetConditions()
 	if len(conditions) > 0 && (len(conditions) > 1 || conditions[0] != authzGraph.NoCond) {
